@@ -116,8 +116,12 @@ def ser(e):
     if isinstance(e, sp.Symbol):
         return ['Symbol', Str(e.name), 'c' if e.is_commutative else 'nc']
     if isinstance(e, sp.Integer):
+        if int(e.p).bit_length() > 1000:
+            raise OverflowError('huge integer')
         return ['Int', int(e.p)]
     if isinstance(e, sp.Rational):
+        if int(e.p).bit_length() > 1000 or int(e.q).bit_length() > 1000:
+            raise OverflowError('huge rational')
         return ['Rat', int(e.p), int(e.q)]
     if isinstance(e, sp.Float):
         return ['Float', Str(repr(float(e))), 'neg' if e < 0 else 'pos']
@@ -257,6 +261,8 @@ class Ref:
             return self.note(M.power(b, e))
         if k == 'Fn':
             name, args = str(t[1]), [self.num(a) for a in t[2:]]
+            if name not in FN1 and name != 'atan2':
+                raise Undefined('no reference for ' + name)     # re, im, arg, sign … introduced by SymPy's evaluation
             try:
                 if name == 'atan2':
                     if any(M.im(a) != 0 for a in args) or (args[0] == 0 and M.re(args[1]) <= 0):
@@ -311,7 +317,7 @@ def impl(case):
         return limited(8, impl_, case)
     except TooSlow:
         return {'built': None, 'why': 'timeout'}
-    except (MemoryError, RecursionError) as ex:
+    except (MemoryError, RecursionError, OverflowError) as ex:
         return {'built': None, 'why': type(ex).__name__}
 
 
@@ -386,7 +392,7 @@ def oracle_(case, obs):
             return [{'key': 'rejects-supported:secondary-trig', 'detail': 'ValueError: %s is left unrewritten in %s'
                      % (','.join(sorted(set(why))), sx(t))}]
         return []
-    if why:
+    if any(w != 'NaN' and not (w.startswith('Other:') and w[6:] in NONFINITE + ('NegativeInfinity',)) for w in why):
         fails.append({'key': 'accepts-unsupported', 'detail': '%s printed as %r' % (sx(t), out)})
         return fails
     try:
@@ -417,6 +423,16 @@ def oracle_(case, obs):
                 continue
         kind, got = run_python(out, env)
         if kind == 'exc':
+            if ref.clean and isinstance(seen, list) and seen != t:
+                # SymPy's evaluation may have produced a form that is real only through complex intermediates
+                # (sqrt(a) * sqrt(b) with a, b < 0): math cannot evaluate it, which is not a grouping matter
+                r2 = Ref(env)
+                try:
+                    r2.ev(seen)
+                except Undefined:
+                    continue
+                if not r2.clean:
+                    continue
             if ref.clean and got not in ('OverflowError',):
                 key = 'factorial-float' if (got == 'TypeError' and 'math.factorial' in out) else \
                     'acot-at-zero' if (got == 'ZeroDivisionError' and ref.acot0) else 'eval-error'
@@ -475,7 +491,9 @@ def unprintable(t):
     (hand-written list: anything but the 22 one-argument functions below, atan2 and the basic operators)"""
     out = []
     for s in walk_printed(t):
-        if s[0] in ('Other', 'NaN', 'Not'):
+        if s[0] == 'Other':
+            out.append('Other:' + str(s[1]))
+        elif s[0] in ('NaN', 'Not'):
             out.append(s[0])
         elif s[0] == 'Fn' and not (str(s[1]) in PRINTABLE1 and len(s) == 3 or str(s[1]) == 'atan2' and len(s) == 4):
             out.append(str(s[1]))
